@@ -1,13 +1,15 @@
 #!/usr/bin/env python3
 """Evaluate one seeded change against the machinery.
 
-  seedtest.py <property id> <dir with patch.diff, demo.py, notes.md> [--keep <name>] [--tier quick|thorough] [--also Cxx ...]
+  seedtest.py <property id> <dir with patch.diff, demo.py, notes.md> [--keep <name>] [--tier quick|thorough] [--benign] [--also Cxx ...]
 
 Steps (all on a scratch copy of /repo, /repo itself is never touched):
   1 the patch applies to the current /repo tree
   2 the 47 existing tests still pass with it
   3 demo.py fails (exit != 0) with the change and passes (exit 0) without it
   4 ./check <id> (QEXPY_REPO=<scratch>) reports a VIOLATION; the replay fails on the changed tree and passes on /repo
+With --benign the change is a behaviour-preserving refactoring: the demo must pass on both trees and the expected outcome
+of the check is exit 0 with no VIOLATION line (a no-failing-input-found report is recorded as such: tie broken, no witness).
 With --keep the case is stored under /verif/seeded/<name>/ (patch.diff, demo.py, notes.md, meta.json).
 """
 import json
@@ -35,8 +37,9 @@ def main():
     pid, d = args[0], os.path.abspath(args[1])
     keep = args[args.index("--keep") + 1] if "--keep" in args else None
     tier = args[args.index("--tier") + 1] if "--tier" in args else "quick"
+    benign = "--benign" in args
     also = args[args.index("--also") + 1:] if "--also" in args else []
-    meta = {"property": pid, "source_dir": d, "tier": tier}
+    meta = {"property": pid, "source_dir": d, "tier": tier, "kind": "benign" if benign else "breaking"}
     shutil.rmtree(SCRATCH, ignore_errors=True)
     sh("rsync -a --exclude .git /repo/ {}/".format(SCRATCH))
     rc, out = sh("patch -p1 --no-backup-if-mismatch < {}/patch.diff".format(d), cwd=SCRATCH)
@@ -80,9 +83,12 @@ def main():
     # restore generated files / build for the real repo
     sh("./check {} --tier quick >/dev/null 2>&1".format(pid), cwd=VERIF)
     shutil.rmtree(SCRATCH, ignore_errors=True)
-    ok = meta["tests_pass"] and rc1 != 0 and rc0 == 0
+    ok = meta["tests_pass"] and (rc1 == 0 if benign else rc1 != 0) and rc0 == 0
     meta["valid_seed"] = ok
     meta["detected"] = results[pid]["violations"] > 0
+    if benign:
+        meta["alarm"] = meta.pop("detected")
+        meta["alarm_with_input"] = any("replay" in r for r in results.values())
     return finish(meta, keep, d, 0 if ok else 3)
 
 
